@@ -83,6 +83,12 @@ func relativeShape(r *rand.Rand, a iset, key uint64) iset {
 		return chunkShape(r, key)
 	}
 	sp := inChunk[r.Intn(len(inChunk))]
+	switch r.Intn(3) { // the first and the last run of a (its minimum / maximum) are the usual suspects
+	case 0:
+		sp = inChunk[0]
+	case 1:
+		sp = inChunk[len(inChunk)-1]
+	}
 	var sl span
 	switch r.Intn(7) {
 	case 0:
@@ -779,6 +785,7 @@ func profile(name string) Profile {
 		set(3, mut...)
 		set(3, "RunOptimize", "Clone", "Detach")
 		set(2, alg...)
+		set(2, "FlipS", "AddOffset", "FastOr", "HeapOr") // static results derived from (frozen / zero-copy) views, written to later
 		set(2, "Equals", "Card")
 		set(5, "Build")
 	case "parallel": // C12
